@@ -39,6 +39,17 @@ func checkC13(c *core.Ctx) {
 	// helper functions called from Validate that take part in a facet
 	defSets := definedTypeSets(p, pkg, fd)
 	setTakers := setTakingFuncs(p, pkg)
+	// inside a generic helper (firstDuplicate[T, K]) a key type that is a type
+	// parameter stands for the type argument of the call that led there
+	subst := map[*types.TypeParam]types.Type{}
+	resolveKey := func(t types.Type) types.Type {
+		if tp, ok := t.(*types.TypeParam); ok {
+			if r, ok := subst[tp]; ok {
+				return r
+			}
+		}
+		return t
+	}
 	var scan func(n ast.Node, kind string, depth int)
 	scan = func(n ast.Node, kind string, depth int) {
 		ast.Inspect(n, func(m ast.Node) bool {
@@ -61,12 +72,12 @@ func checkC13(c *core.Ctx) {
 				}
 				if t := info.TypeOf(x.X); t != nil {
 					if mt, ok := t.Underlying().(*types.Map); ok {
-						if k, ok := mt.Key().Underlying().(*types.Basic); ok && k.Kind() == types.Uint32 {
+						if k, ok := resolveKey(mt.Key()).Underlying().(*types.Basic); ok && k.Kind() == types.Uint32 {
 							kinds[kind]["opcode"] = true
 						}
 						if _, isEmpty := mt.Elem().Underlying().(*types.Struct); isEmpty && mt.Elem().Underlying().(*types.Struct).NumFields() == 0 {
 							if !isDefSet && !isPkgLevel {
-								if k, ok := mt.Key().Underlying().(*types.Basic); ok {
+								if k, ok := resolveKey(mt.Key()).Underlying().(*types.Basic); ok {
 									if k.Info()&types.IsString != 0 {
 										kinds[kind]["dupname"] = true
 									} else if k.Info()&types.IsInteger != 0 {
@@ -96,7 +107,34 @@ func checkC13(c *core.Ctx) {
 								}
 							}
 						}
+						// type arguments of a generic helper, explicit or inferred
+						var bound []*types.TypeParam
+						var fid *ast.Ident
+						switch f := ast.Unparen(x.Fun).(type) {
+						case *ast.Ident:
+							fid = f
+						case *ast.IndexExpr:
+							fid, _ = ast.Unparen(f.X).(*ast.Ident)
+						case *ast.IndexListExpr:
+							fid, _ = ast.Unparen(f.X).(*ast.Ident)
+						}
+						if fid != nil {
+							if inst, ok := info.Instances[fid]; ok && inst.TypeArgs != nil {
+								if sig, okS := callee.Type().(*types.Signature); okS && sig.TypeParams() != nil {
+									for i := 0; i < sig.TypeParams().Len() && i < inst.TypeArgs.Len(); i++ {
+										tp := sig.TypeParams().At(i)
+										if _, had := subst[tp]; !had {
+											subst[tp] = resolveKey(inst.TypeArgs.At(i))
+											bound = append(bound, tp)
+										}
+									}
+								}
+							}
+						}
 						scan(d.Body, kind, depth+1)
+						for _, tp := range bound {
+							delete(subst, tp)
+						}
 						for _, po := range added {
 							delete(defSets, po)
 						}
@@ -140,13 +178,27 @@ func checkC13(c *core.Ctx) {
 					// union's own duplicate-branch check, not the branch's fields
 					kinds["UnionBranch"]["dupname"] = before["dupname"]
 					ast.Inspect(inner.Body, func(k ast.Node) bool {
-						nested, ok := k.(*ast.RangeStmt)
-						if !ok {
+						var body ast.Node
+						switch y := k.(type) {
+						case *ast.RangeStmt:
+							body = y.Body
+						case *ast.CallExpr:
+							// the loop over the branch's fields may sit in a helper
+							// that is handed them (a []Field argument)
+							for _, a := range y.Args {
+								if sl, ok := info.TypeOf(a).(*types.Slice); ok {
+									if nt, ok := sl.Elem().(*types.Named); ok && nt.Obj().Name() == "Field" && nt.Obj().Pkg() == pkg.Types {
+										body = &ast.ExprStmt{X: y}
+									}
+								}
+							}
+						}
+						if body == nil {
 							return true
 						}
 						tmp := kinds["UnionBranch"]
 						kinds["UnionBranch"] = facts{}
-						scan(nested.Body, "UnionBranch", 0)
+						scan(body, "UnionBranch", 0)
 						if kinds["UnionBranch"]["dupname"] {
 							tmp["dupname"] = true
 						}
